@@ -29,6 +29,41 @@ SrcViewA(e) == ViewOf(After(e), SrcViewB(e).key)
 
 TargetBag(views) == SeqBag(AllTargets(views))
 
+(***************************************************************************)
+(* Extract section, predicted: the shape (every block with its kind, depth *)
+(* and heading level, in order) of the source afterwards is its shape      *)
+(* before with the extracted section - the heading on the requested line   *)
+(* and everything up to the next heading of the same or a higher level -   *)
+(* removed and one reference added at the end of the parent section's own  *)
+(* blocks (before its first sub-section); the shape of the new note is the *)
+(* section with its headings promoted so that the extracted one is level 1.*)
+(***************************************************************************)
+MinOf(S) == CHOOSE x \in S : \A y \in S : x <= y
+RefEntry == [d |-> 0, first |-> "", k |-> "Ref", l |-> 0]
+
+ExtractPrediction(e) ==
+    LET sb == SrcViewB(e).shape
+        sa == SrcViewA(e).shape
+        new == {v \in Range(After(e)) : v.key \in Created(e)}
+        idx == {i \in 1..Len(sb) : sb[i].k = "H" /\ sb[i].d = 0 /\ sb[i].first = e.target_first}
+    IN  IF Kind(e) # "refactor.extract.section" \/ Cardinality(idx) # 1 \/ Cardinality(new) # 1 THEN {}
+        ELSE LET i == CHOOSE x \in idx : TRUE
+                 lvl == sb[i].l
+                 ends == {j \in (i + 1)..Len(sb) : sb[j].k = "H" /\ sb[j].d = 0 /\ sb[j].l <= lvl}
+                 stop == IF ends = {} THEN Len(sb) + 1 ELSE MinOf(ends)
+                 \* the reference is a child of the section that held the extracted one: it stands after that
+                 \* section's own blocks and before its first sub-section (a block after a sub-section would
+                 \* belong to the sub-section)
+                 parents == {j \in 1..(i - 1) : sb[j].k = "H" /\ sb[j].d = 0 /\ sb[j].l < lvl}
+                 par == IF parents = {} THEN 0 ELSE CHOOSE j \in parents : \A x \in parents : x <= j
+                 z == MinOf({j \in (par + 1)..i : sb[j].k = "H" /\ sb[j].d = 0})
+                 expSrc == SubSeq(sb, 1, z - 1) \o <<RefEntry>> \o SubSeq(sb, z, i - 1) \o SubSeq(sb, stop, Len(sb))
+                 expNew == [j \in 1..(stop - i) |-> IF sb[i + j - 1].k = "H" /\ sb[i + j - 1].d = 0
+                                                     THEN [sb[i + j - 1] EXCEPT !.l = @ - (lvl - 1)] ELSE sb[i + j - 1]]
+                 nv == (CHOOSE v \in new : TRUE).shape
+             IN  (IF sa # expSrc THEN {<<"source-shape-not-as-predicted", expSrc, sa>>} ELSE {})
+                 \cup (IF nv # expNew THEN {<<"new-note-shape-not-as-predicted", expNew, nv>>} ELSE {})
+
 ExtractReasons(e) ==
     LET sb == SrcViewB(e)
         sa == SrcViewA(e)
@@ -51,6 +86,44 @@ ExtractReasons(e) ==
         \* the source keeps everything else, in order
         \cup (IF Cardinality(new) = 1 /\ ~IsRemovalOf(sb.words, sa.words, (CHOOSE v \in new : TRUE).words)
               THEN {<<"rest-of-source-changed">>} ELSE {})
+        \cup ExtractPrediction(e)
+
+(***************************************************************************)
+(* Inline section, predicted: some reference of the host at depth 0 is     *)
+(* removed and the shape of the inlined note, its headings demoted by the  *)
+(* level of the heading that owns the reference, is inserted at the end of *)
+(* that heading's own blocks (before its first sub-section).               *)
+(***************************************************************************)
+InlinePrediction(e) ==
+    LET hb == SrcViewB(e).shape
+        ha == SrcViewA(e).shape
+        gone == {v \in Range(Before(e)) : v.key \in Deleted(e)}
+    IN  IF Kind(e) # "refactor.inline.reference.section" \/ Cardinality(gone) # 1 THEN {}
+        ELSE LET tb == (CHOOSE v \in gone : TRUE).shape
+                 refs == {r \in 1..Len(hb) : hb[r].k = "Ref" /\ hb[r].d = 0 /\ \E j \in 1..(r - 1) : hb[j].k = "H" /\ hb[j].d = 0}
+                 Owner(r) == CHOOSE j \in 1..(r - 1) : hb[j].k = "H" /\ hb[j].d = 0 /\ \A x \in (j + 1)..(r - 1) : ~(hb[x].k = "H" /\ hb[x].d = 0)
+                 Zone(r) == LET hs == {j \in (r + 1)..Len(hb) : hb[j].k = "H" /\ hb[j].d = 0} IN IF hs = {} THEN Len(hb) + 1 ELSE MinOf(hs)
+                 Demoted(r) == [j \in 1..Len(tb) |-> IF tb[j].k = "H" /\ tb[j].d = 0 THEN [tb[j] EXCEPT !.l = @ + hb[Owner(r)].l] ELSE tb[j]]
+                 Exp(r) == SubSeq(hb, 1, r - 1) \o SubSeq(hb, r + 1, Zone(r) - 1) \o Demoted(r) \o SubSeq(hb, Zone(r), Len(hb))
+             IN  IF tb = <<>> \/ tb[1].k # "H" \/ refs = {} THEN {}
+                 ELSE IF \E r \in refs : Exp(r) = ha THEN {}
+                 ELSE {<<"host-shape-not-as-predicted", {Exp(r) : r \in refs}, ha>>}
+
+\* Inline quote, predicted: some reference of the host is replaced, where it stands, by a quote that
+\* holds the shape of the inlined note one level deeper
+QuotePrediction(e) ==
+    LET hb == SrcViewB(e).shape
+        ha == SrcViewA(e).shape
+        gone == {v \in Range(Before(e)) : v.key \in Deleted(e)}
+    IN  IF Kind(e) # "refactor.inline.reference.quote" \/ Cardinality(gone) # 1 THEN {}
+        ELSE LET tb == (CHOOSE v \in gone : TRUE).shape
+                 refs == {r \in 1..Len(hb) : hb[r].k = "Ref"}
+                 Quoted(r) == <<[d |-> hb[r].d, first |-> "", k |-> "Q", l |-> 0]>>
+                              \o [j \in 1..Len(tb) |-> [tb[j] EXCEPT !.d = @ + hb[r].d + 1]]
+                 Exp(r) == SubSeq(hb, 1, r - 1) \o Quoted(r) \o SubSeq(hb, r + 1, Len(hb))
+             IN  IF tb = <<>> \/ refs = {} THEN {}
+                 ELSE IF \E r \in refs : Exp(r) = ha THEN {}
+                 ELSE {<<"host-shape-not-as-predicted", {Exp(r) : r \in refs}, ha>>}
 
 InlineReasons(e) ==
     LET sb == SrcViewB(e)
@@ -65,6 +138,56 @@ InlineReasons(e) ==
         \* the holding note = its old text with the inlined note's content inserted as one block
         \cup (IF Cardinality(gone) = 1 /\ ~IsRemovalOf(sa.words, sb.words, (CHOOSE v \in gone : TRUE).words)
               THEN {<<"inlined-content-not-inserted-as-one-block">>} ELSE {})
+        \cup InlinePrediction(e)
+        \cup QuotePrediction(e)
+
+(***************************************************************************)
+(* Section to list / list to sections, predicted on shapes.                *)
+(*   section -> list: the section on the requested line becomes a bullet   *)
+(*     list of one item whose text is the heading; everything the section  *)
+(*     held follows inside the item (two levels deeper), its headings      *)
+(*     counted from the item.                                              *)
+(*   list -> sections: every item of the top-level list on the requested   *)
+(*     line becomes a heading one level below the heading that owns the    *)
+(*     list; what the item held besides its text follows at depth - 2.     *)
+(***************************************************************************)
+RECURSIVE Unwrap(_, _, _, _)
+\* entries lo..hi of a top-level list (the list entry itself excluded), turned into sections of level lvl
+Unwrap(sh, lo, hi, lvl) ==
+    IF lo > hi THEN <<>>
+    ELSE IF sh[lo].k = "item" /\ sh[lo].d = 1
+         THEN IF lo < hi /\ sh[lo + 1].k = "P" /\ sh[lo + 1].d = 2
+              THEN <<[d |-> 0, first |-> sh[lo + 1].first, k |-> "H", l |-> lvl]>> \o Unwrap(sh, lo + 2, hi, lvl)
+              ELSE <<[d |-> 0, first |-> "", k |-> "H", l |-> lvl]>> \o Unwrap(sh, lo + 1, hi, lvl)
+         ELSE <<[sh[lo] EXCEPT !.d = @ - 2]>> \o Unwrap(sh, lo + 1, hi, lvl)
+
+ConvertPrediction(e) ==
+    LET hb == SrcViewB(e).shape
+        ha == SrcViewA(e).shape
+    IN  IF Kind(e) = "refactor.rewrite.section.list"
+        THEN LET idx == {i \in 1..Len(hb) : hb[i].k = "H" /\ hb[i].d = 0 /\ hb[i].first = e.target_first}
+             IN  IF Cardinality(idx) # 1 THEN {}
+                 ELSE LET i == CHOOSE x \in idx : TRUE
+                          lvl == hb[i].l
+                          ends == {j \in (i + 1)..Len(hb) : hb[j].k = "H" /\ hb[j].d = 0 /\ hb[j].l <= lvl}
+                          stop == IF ends = {} THEN Len(hb) + 1 ELSE MinOf(ends)
+                          inner == [j \in 1..(stop - i - 1) |->
+                                      LET x == hb[i + j] IN
+                                      IF x.k = "H" /\ x.d = 0 THEN [x EXCEPT !.d = 2, !.l = @ - lvl] ELSE [x EXCEPT !.d = @ + 2]]
+                          exp == SubSeq(hb, 1, i - 1)
+                                 \o <<[d |-> 0, first |-> "", k |-> "BL", l |-> 0], [d |-> 1, first |-> "", k |-> "item", l |-> 0],
+                                      [d |-> 2, first |-> hb[i].first, k |-> "P", l |-> 0]>>
+                                 \o inner \o SubSeq(hb, stop, Len(hb))
+                      IN  IF ha # exp THEN {<<"shape-not-as-predicted", exp, ha>>} ELSE {}
+        ELSE IF Kind(e) = "refactor.rewrite.list.section"
+        THEN LET lists == {i \in 1..Len(hb) : hb[i].k \in {"BL", "OL"} /\ hb[i].d = 0}
+                 End(i) == LET out == {j \in (i + 1)..Len(hb) : hb[j].d = 0} IN IF out = {} THEN Len(hb) ELSE MinOf(out) - 1
+                 OwnerLevel(i) == LET hs == {j \in 1..(i - 1) : hb[j].k = "H" /\ hb[j].d = 0}
+                                  IN  IF hs = {} THEN 0 ELSE hb[CHOOSE j \in hs : \A x \in hs : x <= j].l
+                 Exp(i) == SubSeq(hb, 1, i - 1) \o Unwrap(hb, i + 1, End(i), OwnerLevel(i) + 1) \o SubSeq(hb, End(i) + 1, Len(hb))
+             IN  IF lists = {} \/ \E i \in lists : Exp(i) = ha THEN {}
+                 ELSE {<<"shape-not-as-predicted", {Exp(i) : i \in lists}, ha>>}
+        ELSE {}
 
 ConvertReasons(e) ==
     LET sb == SrcViewB(e)
@@ -72,6 +195,7 @@ ConvertReasons(e) ==
     IN  (IF Created(e) # {} \/ Deleted(e) # {} \/ Len(Before(e)) # 1 \/ Len(After(e)) # 1 THEN {<<"touches-other-notes">>} ELSE {})
         \cup (IF ~SameTextInOrder(sb, sa) THEN {<<"text-or-order-changed">>} ELSE {})
         \cup (IF Kind(e) = "refactor.rewrite.list.type" /\ ~OnlyListKindsDiffer(sb, sa) THEN {<<"more-than-list-kind-changed">>} ELSE {})
+        \cup (IF Len(Before(e)) = 1 /\ Len(After(e)) = 1 THEN ConvertPrediction(e) ELSE {})
 
 \* "everything else unchanged": a note that is still there keeps its front matter, a created note has none
 MetaReasons(e) ==
